@@ -794,6 +794,15 @@ func (r *collection) registerDescriptor(descriptor *Descriptor) error {
 		}
 	}
 
+	// A service is registered under a key or in a group, never both (see Descriptor.Validate): a keyed descriptor that
+	// kept a group would be stored under one identity and looked up, and checked for cycles, under another
+	if descriptor.Key != nil && descriptor.Group != "" {
+		return &ValidationError{
+			ServiceType: descriptor.Type,
+			Cause:       fmt.Errorf("descriptor cannot have both key and group set"),
+		}
+	}
+
 	// Register based on type of service
 	if descriptor.Key != nil || descriptor.Group == "" {
 		key := TypeKey{Type: descriptor.Type, Key: descriptor.Key}
